@@ -7,6 +7,7 @@ mod c02;
 mod c03;
 mod c07;
 mod c11;
+mod c12;
 mod schema;
 mod c05;
 mod c06;
@@ -61,6 +62,7 @@ fn main() {
         "c03" => c03::run(&args),
         "c07" => c07::run(&args),
         "c11" => c11::run(&args),
+        "c12" => c12::run(&args),
         "c05" => c05::run(&args),
         "c06" => c06::run(&args),
         "c06b64" => c06::run_b64(&args),
